@@ -371,7 +371,14 @@ def main():
         e = last_return(f)
         if not (isinstance(e, ast.Call) and isinstance(e.func, ast.Attribute) and e.func.attr == 'normal' and not e.args):
             raise Refuse("not `<expr>.normal()`")
-        t = Tr(dict(P1=M('P1'), P2=M('P2'))).tr(e.func.value)
+        core_ = e.func.value
+        if isinstance(core_, ast.Name):
+            # `C = <expr>; [guard for the null case]; return C.normal()`
+            asg = [st for st in f.body if isinstance(st, ast.Assign) and len(st.targets) == 1 and ast.unparse(st.targets[0]) == core_.id]
+            if len(asg) != 1:
+                raise Refuse(f"{core_.id} is not assigned exactly once")
+            core_ = asg[0].value
+        t = Tr(dict(P1=M('P1'), P2=M('P2'))).tr(core_)
         return f"def g3c_rotor_between_planes_unnormalised (P1 P2 : A) : A := {t.lean}\n"
     emit('g3c_rotor_between_planes', gen_rbp,
          "theorem g3c_rotor_between_planes_eq (P1 P2 : A) : GenMV.g3c_rotor_between_planes_unnormalised P1 P2 = 1 + (-1 : ℚ) • (P2 * P1) := by\n"
